@@ -29,6 +29,12 @@ type FileFlags struct {
 	Truncate bool
 }
 
+type readSeekNopCloser struct {
+	io.ReadSeeker
+}
+
+func (readSeekNopCloser) Close() error { return nil }
+
 type File struct {
 	afero.File
 
@@ -111,6 +117,12 @@ func (f *File) syncWithoutLocking() error {
 	}
 
 	if f.writeBuf != nil {
+		// Syncing reads the write buffer from the start; remember the cursor so that the file can be used as before afterwards
+		pos, err := f.writeBuf.Seek(0, io.SeekCurrent)
+		if err != nil {
+			return err
+		}
+
 		done := false
 		if _, err := f.writeOps.Update(
 			func() (config.FileConfig, error) {
@@ -158,7 +170,8 @@ func (f *File) syncWithoutLocking() error {
 							return nil, err
 						}
 
-						return f.writeBuf, nil
+						// The `update` operation closes its source; the write buffer has to stay open until the file is closed
+						return readSeekNopCloser{f.writeBuf}, nil
 					},
 					// Pass the attributes on as a tar header; `tar.FileInfoHeader` only takes owner and access/change time from a `*tar.Header` (or a raw `syscall.Stat_t`), so they would be reset otherwise
 					Info: (&tar.Header{
@@ -180,6 +193,10 @@ func (f *File) syncWithoutLocking() error {
 			true,
 			true,
 		); err != nil {
+			return err
+		}
+
+		if _, err := f.writeBuf.Seek(pos, io.SeekStart); err != nil {
 			return err
 		}
 	}
@@ -205,8 +222,11 @@ func (f *File) closeWithoutLocking() error {
 	}
 
 	if f.writeBuf != nil {
-		// No need to close write buffer, the `update` operation closes it itself
 		if err := f.syncWithoutLocking(); err != nil {
+			return err
+		}
+
+		if err := f.writeBuf.Close(); err != nil {
 			return err
 		}
 
